@@ -1,8 +1,8 @@
 #!/bin/sh
 # tools/seedwave.sh <NN> <wave-letter>  - test /tmp/wt/T<NN>_out/{1,2,3} against C<NN>, keep as seeded/C<NN>-<letter><k>
-n=$1; w=${2:-c}
+n=$1; w=${2:-c}; pre=${3:-T}
 for k in 1 2 3 4; do
-  d=/tmp/wt/T${n}_out/$k
+  d=/tmp/wt/${pre}${n}_out/$k
   [ -f $d/patch.diff ] || continue
   echo "== C$n-$w$k"
   /venv/bin/python /verif/tools/seedtest.py $d C$n --keep C$n-$w$k 2>&1 | grep -v "^ *\"needs\|^ *\"origin" | tail -25
